@@ -1622,3 +1622,7 @@ mod tests {
         );
     }
 }
+
+#[cfg(all(test, feature = "pendulum_project_ntpd_rs_verif"))]
+#[path = "../../../verif/harness/statime_algo/filter.rs"]
+mod verif_filter;
